@@ -26,6 +26,7 @@ type c18Node struct {
 	To   string   `json:"to"`
 	HL   bool     `json:"hl"`
 	Kids []string `json:"kids"`
+	M    string   `json:"m"`
 }
 
 type c18Tree struct {
@@ -76,6 +77,9 @@ func c18Desc(nodes []c18Node) string {
 		if n.HL {
 			s += "(hl)"
 		}
+		if n.M != "" && n.M != "ok" {
+			s += "(mode:" + n.M + ")"
+		}
 		if n.T == "dir" {
 			s += "{" + strings.Join(n.Kids, "") + "}"
 		}
@@ -114,13 +118,38 @@ func c18BuildTree(t testing.TB, r *vrRepo, tr c18Tree, ino *uint64) restic.ID {
 		return &data.Node{Name: name, Type: data.NodeTypeDir, Mode: os.ModeDir | 0o700, ModTime: c18T0, AccessTime: c18T0, ChangeTime: c18T0,
 			Subtree: &sub, Inode: *ino, Links: 1}
 	}
+	// mode classes that disagree with the node type (see Fn_Confine!NM)
+	setMode := func(nd *data.Node, m string) *data.Node {
+		switch m {
+		case "", "ok":
+		case "perm":
+			nd.Mode = 0o777
+		case "reg":
+			nd.Mode = 0o644
+		case "dirbit":
+			nd.Mode = os.ModeDir | 0o755
+		case "symbit":
+			nd.Mode = os.ModeSymlink | 0o777
+		case "setuid":
+			nd.Mode = os.ModeSetuid | 0o755
+		default:
+			panic("mode class " + m)
+		}
+		return nd
+	}
 	var nodes []*data.Node
 	for _, n := range tr.Nodes {
 		switch n.T {
 		case "file":
-			nodes = append(nodes, file(n.N, n.HL))
+			nodes = append(nodes, setMode(file(n.N, n.HL), n.M))
 		case "symlink":
-			nodes = append(nodes, symlink(n.N, n.To, 0))
+			nodes = append(nodes, setMode(symlink(n.N, n.To, 0), n.M))
+		case "fifo":
+			*ino++
+			nodes = append(nodes, setMode(&data.Node{Name: n.N, Type: data.NodeTypeFifo, Mode: os.ModeNamedPipe | 0o640, ModTime: c18T0, AccessTime: c18T0, ChangeTime: c18T0, Inode: *ino, Links: 1}, n.M))
+		case "chardev":
+			*ino++
+			nodes = append(nodes, setMode(&data.Node{Name: n.N, Type: data.NodeTypeCharDev, Mode: os.ModeDevice | os.ModeCharDevice | 0o640, ModTime: c18T0, AccessTime: c18T0, ChangeTime: c18T0, Inode: *ino, Links: 1, Device: 0x103}, n.M))
 		case "dir":
 			var kids []*data.Node
 			for _, k := range n.Kids {
@@ -138,11 +167,15 @@ func c18BuildTree(t testing.TB, r *vrRepo, tr c18Tree, ino *uint64) restic.ID {
 					kids = append(kids, file("../../esc", false))
 				case "u":
 					kids = append(kids, file("..", false))
+				case "S":
+					kids = append(kids, setMode(symlink("x", "outdir", 1), "perm"))
+				case "T":
+					kids = append(kids, setMode(symlink("x", "outfile", 1), "perm"))
 				default:
 					panic("kid " + k)
 				}
 			}
-			nodes = append(nodes, dir(n.N, r.queueTreeRaw(t, kids)))
+			nodes = append(nodes, setMode(dir(n.N, r.queueTreeRaw(t, kids)), n.M))
 		default:
 			panic("node type " + n.T)
 		}
@@ -323,6 +356,7 @@ func TestVerif_C18(t *testing.T) {
 	r := vrNewRepo(t)
 	snaps := make([]*data.Snapshot, len(trees))
 	hasDir := make([]bool, len(trees))
+	incons := make([]bool, len(trees))
 	var ino uint64 = 1000
 	for i, tr := range trees {
 		for _, n := range tr.Nodes {
@@ -331,6 +365,14 @@ func TestVerif_C18(t *testing.T) {
 			}
 			if n.T == "dir" {
 				hasDir[i] = true
+			}
+			if n.M != "" && n.M != "ok" {
+				incons[i] = true
+			}
+			for _, k := range n.Kids {
+				if k == "S" || k == "T" {
+					incons[i] = true
+				}
 			}
 		}
 		id := c18BuildTree(t, r, tr, &ino)
@@ -358,7 +400,12 @@ func TestVerif_C18(t *testing.T) {
 				if e.Sparse != ((ti+ei)%2 == 0) || rng.Float64() >= 0.4 {
 					continue
 				}
-			} else if rng.Float64() >= quickP {
+			} else if p := quickP; rng.Float64() >= func() float64 {
+				if incons[ti] {
+					return 4 * p // trees with inconsistent node fields are few: sample them more densely
+				}
+				return p
+			}() {
 				continue
 			}
 			jobs = append(jobs, job{ti, ei})
